@@ -149,6 +149,9 @@ class Machine:
             # known to carry the other tag are don't-cares for that branch and are pruned.
             inp_l = T.restrict_bit(inp, inp.w - 1, 0) if tag.op != "c" else inp
             inp_r = T.restrict_bit(inp, inp.w - 1, 1) if tag.op != "c" else inp
+            if tag.op != "c":
+                inp_l = T.assume_deep(inp_l, tag, 0)
+                inp_r = T.assume_deep(inp_r, tag, 1)
             c = T.ext(inp, wc - 1, 0) if wc else None
             cl = T.ext(inp_l, wc - 1, 0) if wc else None
             cr = T.ext(inp_r, wc - 1, 0) if wc else None
